@@ -126,7 +126,8 @@ def check_program(shard, prog, argv, choices_list, extra_cut_sets=(), zero_len=F
         return
     shard.event("programs")
     try:
-        binary = crun.Binary(comp)
+        # yield programs are re-invoked at chunk ends: build them with ASan so that a read past the chunk's exact-size block is caught
+        binary = crun.Binary(comp, sanitize=bool(comp.dctx.yield_codes))
     except crun.BuildError as e:
         raise Failure("c02:c-build-error", "generated C does not build:\n" + str(e)[-1200:], replay)
     info = binary.info
@@ -149,6 +150,8 @@ def check_program(shard, prog, argv, choices_list, extra_cut_sets=(), zero_len=F
                 chunk_lists.append(chunks)
                 sc.b += trace.script_for(chunks, call_end=info.eof, call_free=info.dynmem, move=True).b
             rc, outp, err = binary.run_raw(sc)
+            if rc != 0 and "AddressSanitizer" in err:
+                raise Failure("c02:read-outside-chunk", "sanitizer report (input %s):\n%s" % (d.hex(), err[-1200:]), dict(replay, input=d.hex()))
             if rc != 0:
                 kind = "hang" if rc == 3 else "crash"
                 raise Failure("c02:c-" + kind, "driver exit %s\n%s\n%s" % (rc, outp[-300:], err[-800:]), dict(replay, input=d.hex()))
@@ -185,7 +188,39 @@ def check_program(shard, prog, argv, choices_list, extra_cut_sets=(), zero_len=F
 
 
 @st.composite
+def yield_tail_program(draw):
+    """A token that yields, directly followed by an optional / open-ended tail (the program may end right after the yield)."""
+    from vlib import ir
+    n = draw(st.integers(1, 3))
+    toks = draw(st.permutations([b"ab", b"x", b"cd", b"q"]))[:n]
+    ycodes = ["Y%d" % i for i in range(n)]
+    clauses = tuple((((("lit", t, "str"),)), None, (("yield", ycodes[i]),)) for i, t in enumerate(toks))
+    tail_kind = draw(st.sampled_from(["optional", "optional-hook", "star", "plus-append", "nothing", "literal"]))
+    outs = [("str", "s0", 4, True, None, False)]
+    if tail_kind == "optional":
+        tail = (("optional", (("match", ("lit", b"ef", "str")),)),)
+    elif tail_kind == "optional-hook":
+        tail = (("optional", (("match", ("lit", b"ef", "str")), ("hook", "h0"))),)
+    elif tail_kind == "star":
+        tail = (("match", ("re", ("op", ("lit", 0x65), "*"), False)),)
+    elif tail_kind == "plus-append":
+        tail = (("append", "s0", ("re", ("op", ("set", (("r", 0x65, 0x66),), False), "*"), False)),)
+    elif tail_kind == "literal":
+        tail = (("match", ("lit", b"e", "str")), ("hook", "h0"))
+    else:
+        tail = ()
+    body = (("case", False, clauses),) + tail
+    prog = ir.Program(outs, ["h0"], [], ycodes, [], body, [draw(st.sampled_from(gen.OPT_LEVELS)), "-fyield-support"])
+    return prog
+
+
+@st.composite
 def case_strategy(draw):
+    if draw(st.integers(0, 4)) == 0:
+        prog = draw(yield_tail_program())
+        argv = list(prog.argv) + draw(st.sampled_from([[], ["-fstrict-done-token-generation"], ["-fallocate-str-space-dynamic"]]))
+        datas = [bytes(draw(st.lists(st.sampled_from(list(b"abxcdqef")), min_size=2, max_size=6))) for _ in range(3)]
+        return prog, argv, datas, []
     mode = draw(st.sampled_from(["plain", "plain", "yield", "yield", "eof"]))
     cfg = gen.GenConfig(max_depth=2, max_stmts=5, allow_yield=(mode == "yield"), allow_end=(mode == "eof"),
                         kinds={"yield": 3 if mode == "yield" else 0, "append": 4, "hook": 4, "match": 8, "if": 3}, wide_bytes=0.05)
